@@ -429,9 +429,19 @@ fn run_load_use(plan: &Plan, image: &[u8], verbose: bool) -> Report {
     }
     // ---- client session (C05)
     let map = format::walk(image);
-    let costs = costs_for(&map, COST_CAP);
+    // dedicated big-render scenarios raise the work cap through the plan note
+    let cap = plan
+        .note
+        .strip_prefix("costcap=")
+        .and_then(|s| s.parse::<u32>().ok())
+        .map(|b| 1u64 << b.min(40))
+        .unwrap_or(COST_CAP);
+    let costs = costs_for(&map, cap);
     if !map.complete {
         facts.probes.push("loaded-but-unwalkable".into());
+    }
+    if cap > COST_CAP {
+        facts.probes.push("big-render-scenario".into());
     }
     let ops: Vec<Op> = match &plan.workload {
         Workload::None => Vec::new(),
@@ -488,6 +498,9 @@ fn run_load_use(plan: &Plan, image: &[u8], verbose: bool) -> Report {
             Ok(OpOutcome::Done(x)) => {
                 facts.ops_done += 1;
                 *counts.entry(op.name()).or_insert(0) += 1;
+                // Debug output iterates hash maps (per-process RandomState): it is executed for
+                // its totality but its text is not part of any cross-process digest
+                let x = if matches!(op, Op::DebugFmt) { 0 } else { x };
                 dg.u64(x);
                 let mut k = Digest::new();
                 k.str(op.name());
